@@ -25,6 +25,7 @@ one mutants/revert-fix-819a78c.patch C18
 one mutants/revert-fix-87dc739.patch C20
 one mutants/revert-fix-7215c77.patch C13
 one mutants/revert-fix-ac70a5d.patch C13
+one mutants/revert-fix-4bcd5b6.patch C13
 one mutants/revert-fix-5c51e9f.patch C14
 one mutants/revert-fix-9d3b87d.patch C18
 for p in sim/circuitsim/mutants/*.patch; do one $p C07; done
